@@ -534,7 +534,8 @@ fn run_with<P: Payload + Clone>(args: &[String]) -> i32 {
         "wide" => {
             // very wide sibling lists and long top-level chains (positions far from both ends)
             r.reset(0);
-            let w: usize = 18 + (seed % 4) as usize * 4;            // 18 .. 30 children
+            let width: usize = get("--width", "0").parse().unwrap_or(0);
+            let w: usize = if width > 0 { width } else { 18 + (seed % 4) as usize * 4 };            // 18 .. 30 children unless --width is given
             let root = r.call(&Call { op: "new".into(), a: 0, b: 0, v: 1, checked: false, r: vec![] }).new;
             let mut kids = Vec::new();
             for i in 0..w {
